@@ -140,7 +140,7 @@ func c06NBTFld(c *Ctx, target string, prior int, allow bool, wrap string, varian
 		}
 		// the same document as a decoded Go value, written through the counting writer
 		an, al := "-", "-"
-		{
+		if nbtDeclMax(doc, "net") <= nbtAllocCap { // decoding into `any` allocates the declared lengths up front
 			var tree any
 			d := nbt.NewDecoder(bytes.NewReader(doc))
 			d.NetworkFormat(true)
